@@ -4,6 +4,7 @@ package dart
 
 import (
 	"fmt"
+	"go/types"
 	"strings"
 
 	an "github.com/benoitkugler/gomacro/analysis"
@@ -43,7 +44,22 @@ func typeName(typ an.Type) string {
 		return fmt.Sprintf("List<%s>", typeName(typ.Elem))
 	case *an.Map:
 		return fmt.Sprintf("Map<%s,%s>", typeName(typ.Key), typeName(typ.Elem))
-	case *an.Named, *an.Struct, *an.Enum, *an.Union: // these types are always named
+	case *an.Struct:
+		name := strings.Title(an.LocalName(typ)) // Dart convention
+		// the instantiations of a generic struct are distinct classes (same scheme as the TypeScript generator)
+		typeArgs := typ.Name.TypeArgs()
+		for i := 0; i < typeArgs.Len(); i++ {
+			switch arg := typeArgs.At(i).(type) {
+			case *types.Named:
+				name += "_" + arg.Obj().Name()
+			case *types.Basic: // Generic[int]
+				name += "_" + arg.Name()
+			default:
+				panic("unsupported type argument " + arg.String())
+			}
+		}
+		return name
+	case *an.Named, *an.Enum, *an.Union: // these types are always named
 		return strings.Title(an.LocalName(typ)) // Dart convention
 	default:
 		panic(an.ExhaustiveTypeSwitch + fmt.Sprintf(": %T", typ))
